@@ -12,6 +12,8 @@
 // issuer and is signed with `skey` (a "bad signature" is skey != the key of the intended issuer).
 // Key id prefix selects the type: "K"/"E" Ed25519 (default, fast), "P" ECDSA P-256, "Q" ECDSA P-384,
 // "R" RSA-2048.  Times are seconds after T0 = 2020-01-01T00:00:00Z.
+// Optional "ver":1|2 makes an X.509 v1/v2 certificate (no extensions at all; default v3).
+// The eku name "unk" is an extended key usage OID neither library has a name for.
 package pki
 
 import (
@@ -22,6 +24,7 @@ import (
 	"crypto/rand"
 	"crypto/rsa"
 	"crypto/sha256"
+	"crypto/sha512"
 	stdx509 "crypto/x509"
 	"crypto/x509/pkix"
 	"encoding/asn1"
@@ -58,6 +61,10 @@ type Cert struct {
 	AKID    string   `json:"akid"` // abstract key id whose hash is used as authorityKeyId ("" = none)
 	KU      int      `json:"ku"`   // x509.KeyUsage bits, 0 = absent
 	SigAlg  string   `json:"sigalg"`
+	// Ver: X.509 version 1, 2 or 3 (0 = 3).  Versions 1 and 2 carry no extensions: every
+	// extension-borne attribute (bc, ca, pathlen, eku, dns, ips, skid, akid, ku, extra) is dropped
+	// and the TBSCertificate is re-signed with skey (see lowerVersion).
+	Ver int `json:"ver"`
 	// ExtraExt: raw extra extensions (oid dotted, critical, hex value) appended verbatim.
 	Extra []Ext `json:"extra"`
 }
@@ -176,6 +183,11 @@ func Template(c Cert) *stdx509.Certificate {
 		t.MaxPathLen = -1
 	}
 	for _, e := range c.EKU {
+		if e == "unk" {
+			// an extended key usage zcrypto/stdlib have no name for
+			t.UnknownExtKeyUsage = append(t.UnknownExtKeyUsage, asn1.ObjectIdentifier{1, 3, 6, 1, 4, 1, 55555, 1, 1})
+			continue
+		}
 		u, ok := ekuNames[e]
 		if !ok {
 			panic("pki: unknown eku " + e)
@@ -229,7 +241,78 @@ func Build(c Cert) ([]byte, error) {
 	if err != nil {
 		return nil, fmt.Errorf("pki: create %s: %w", c.ID, err)
 	}
+	if c.Ver == 1 || c.Ver == 2 {
+		return lowerVersion(der, c.Ver, signer)
+	}
 	return der, nil
+}
+
+// lowerVersion rewrites a version-3 certificate made by the standard library into a version 1
+// or 2 certificate: the extensions are removed, the version field is set and the TBSCertificate
+// is signed again with the same signer and signature algorithm.
+func lowerVersion(der []byte, ver int, signer crypto.Signer) ([]byte, error) {
+	type tbs struct {
+		Raw          asn1.RawContent
+		Version      int `asn1:"optional,explicit,default:0,tag:0"`
+		SerialNumber *big.Int
+		SigAlg       pkix.AlgorithmIdentifier
+		Issuer       asn1.RawValue
+		Validity     asn1.RawValue
+		Subject      asn1.RawValue
+		SPKI         asn1.RawValue
+		Extensions   asn1.RawValue `asn1:"optional,explicit,tag:3"`
+	}
+	type cert struct {
+		TBS    tbs
+		SigAlg pkix.AlgorithmIdentifier
+		Sig    asn1.BitString
+	}
+	var in cert
+	if rest, err := asn1.Unmarshal(der, &in); err != nil || len(rest) != 0 {
+		return nil, fmt.Errorf("pki: lowerVersion: reparse: %v", err)
+	}
+	type tbsOut struct {
+		Version      int `asn1:"optional,explicit,default:0,tag:0"`
+		SerialNumber *big.Int
+		SigAlg       pkix.AlgorithmIdentifier
+		Issuer       asn1.RawValue
+		Validity     asn1.RawValue
+		Subject      asn1.RawValue
+		SPKI         asn1.RawValue
+	}
+	out := tbsOut{Version: ver - 1, SerialNumber: in.TBS.SerialNumber, SigAlg: in.TBS.SigAlg,
+		Issuer: in.TBS.Issuer, Validity: in.TBS.Validity, Subject: in.TBS.Subject, SPKI: in.TBS.SPKI}
+	tb, err := asn1.Marshal(out)
+	if err != nil {
+		return nil, err
+	}
+	var sig []byte
+	switch k := signer.(type) {
+	case ed25519.PrivateKey:
+		sig, err = k.Sign(rand.Reader, tb, crypto.Hash(0))
+	case *ecdsa.PrivateKey:
+		// the standard library picks SHA-256 for P-256 and SHA-384 for P-384
+		if k.Curve == elliptic.P384() {
+			h := sha512.Sum384(tb)
+			sig, err = k.Sign(rand.Reader, h[:], crypto.SHA384)
+		} else {
+			h := sha256.Sum256(tb)
+			sig, err = k.Sign(rand.Reader, h[:], crypto.SHA256)
+		}
+	case *rsa.PrivateKey:
+		h := sha256.Sum256(tb)
+		sig, err = k.Sign(rand.Reader, h[:], crypto.SHA256)
+	default:
+		return nil, fmt.Errorf("pki: lowerVersion: unsupported signer %T", signer)
+	}
+	if err != nil {
+		return nil, err
+	}
+	return asn1.Marshal(struct {
+		TBS    asn1.RawValue
+		SigAlg pkix.AlgorithmIdentifier
+		Sig    asn1.BitString
+	}{asn1.RawValue{FullBytes: tb}, in.SigAlg, asn1.BitString{Bytes: sig, BitLength: 8 * len(sig)}})
 }
 
 // MustBuild panics on error (harness problem, not a verdict).
